@@ -477,9 +477,18 @@ SOMENESS_PRESERVING = {"std::option::Option::map", "std::option::Option::as_ref"
 def assumed_ok(assumptions, subj, _d=0):
     if subj[0] == "trybranch":
         subj = subj[1]
+    if subj[0] == "agg" and subj[2] in ("Some", "Ok"):
+        return True
+    if subj[0] == "agg" and subj[2] in ("None", "Err") and subj[1].endswith(("option::Option", "result::Result")):
+        return False
     for pred, value in assumptions:
         if isinstance(value, tuple) and value[0] == "ok" and pred(subj):
             return value[1]
+    if subj[0] == "payload" and subj[2] == "Ok/Some" and _d < 4:
+        # `opt.map(f).transpose()?` is an Option that is Some exactly when opt is
+        inner = subj[1][1] if subj[1][0] == "trybranch" else subj[1]
+        if inner[0] == "call" and inner[1] == "std::option::Option::transpose" and inner[2]:
+            return assumed_ok(assumptions, inner[2][0], _d + 1)
     if subj[0] == "call" and subj[1].split("::")[-1] in ("first", "last", "split_first", "split_last", "first_mut", "last_mut") and "slice" in subj[1] and subj[2]:
         # xs.first() / xs.last() is Some exactly when xs is not empty
         for pred, value in assumptions:
@@ -1265,6 +1274,13 @@ def ok_payload(t, tag="Ok/Some"):
         for a in alts:
             if a[0] == "call" and a[1] in ("std::option::Option::ok_or", "std::option::Option::ok_or_else", "std::result::Result::map_err", "std::result::Result::ok", "std::result::Result::or_else", "std::option::Option::filter", "std::option::Option::take") and a[2]:
                 alts2.append(("__payload_of__", a[2][0]))
+            elif a[0] == "call" and a[1] == "std::option::Option::transpose" and a[2] and a[2][0][0] == "agg" and a[2][0][2] in ("Some", "None"):
+                # Some(r).transpose()? == Some(r?) ; None.transpose()? == None
+                x_ = a[2][0]
+                if x_[2] == "None":
+                    alts2.append(("__value__", ("agg", "std::option::Option", "None", ())))
+                else:
+                    alts2.append(("__value__", ("agg", "std::option::Option", "Some", (("fld", "0", ok_payload(x_[3][0][2])),))))
             elif a[0] == "call" and a[1] in ("std::option::Option::map", "std::result::Result::map") and len(a[2]) == 2 and a[2][1][0] == "closure":
                 r = _closure_on(a[2][1], ok_payload(a[2][0]))
                 alts2.append(("__value__", r) if r is not None else a)
@@ -1388,7 +1404,7 @@ def resolve_terms(prog, t, depth=3, _memo=None, assumptions=()):
                     caps = {n: v for _, n, v in args[1][2]}
                     c2 = Ctx(cb2, params={2: ok_payload(args[0])}, captures=caps, assumptions=assumptions).settle()
                     out = ("agg", "std::option::Option", "Some", (("fld", "0", rec(c2.T.return_term(), depth - 1)),))
-            if out is None and assumptions and t[1] in _UNWRAP_OR and args:
+            if out is None and t[1] in _UNWRAP_OR and args:
                 a = assumed_ok(assumptions, args[0])
                 if a is True:
                     out = ok_payload(args[0])
